@@ -1,9 +1,102 @@
 import NibabelModel.Model.C13
 import Driver.Util
-/-! Line-protocol driver for C13: `C13 <op> <args...>` -> one observable line. -/
+/-! Line-protocol driver for C13.
+
+`C13 run <A|P> <dt> <slope|_> <inter|_> <raw csv|-> <op;op;...|->`  → per-step observables joined by `|`,
+then ` F1` (the model's file never changes).
+
+ops: `g<f|u|x><4|8|i>` get_fdata(fill|unchanged|bad caching, f4|f8|int16) · `d<f|u|x>` get_data ·
+`a` asarray(dataobj) · `s<a>,<b>,<c>` dataobj[a:b:c] (`_` = None) · `u` uncache · `e<k>` edit array k ·
+`el` edit last returned · `m` in_memory · `h<i|o>:s<slope>,<inter>` / `h<i|o>:n<k>` / `h<i|o>:t<dt>`
+header edits on img.header / the constructor's header. -/
 namespace Nb.Drv.C13
+open Nb Nb.C13
+
+def parseDT? (s : String) : Option DT :=
+  if s = "i2" then some .i2 else if s = "f4" then some .f4 else if s = "f8" then some .f8 else none
+
+def showDT : DT → String
+  | .i2 => "i2" | .f4 => "f4" | .f8 => "f8"
+
+def parseCaching? (c : Char) : Option Caching :=
+  if c = 'f' then some .fill else if c = 'u' then some .unchanged else if c = 'x' then some .other else none
+
+def parseHEdit? (s : String) : Option HEdit :=
+  if s.startsWith "s" then
+    match ((s.drop 1).toString.splitOn ",").mapM (·.toInt?) with
+    | some [a, b] => some (.scale a b)
+    | _ => none
+  else if s.startsWith "n" then (s.drop 1).toString.toNat?.map HEdit.shape
+  else if s.startsWith "t" then (parseDT? (s.drop 1).toString).map HEdit.dtype
+  else none
+
+def parseOp? (s : String) : Option Op :=
+  match s.toList with
+  | ['a'] => some .asarray
+  | ['u'] => some .uncache
+  | ['m'] => some .inMemory
+  | ['e', 'l'] => some .editLast
+  | ['g', c, d] =>
+      match parseCaching? c, (if d = '4' then some DT.f4 else if d = '8' then some DT.f8
+                              else if d = 'i' then some DT.i2 else none) with
+      | some c, some d => some (.getFdata c d)
+      | _, _ => none
+  | ['d', c] => (parseCaching? c).map Op.getData
+  | 'e' :: rest => (String.ofList rest).toNat?.map Op.edit
+  | 's' :: rest =>
+      match ((String.ofList rest).splitOn ",").mapM parseOptInt? with
+      | some [a, b, c] => some (.slice ⟨a, b, c⟩)
+      | _ => none
+  | 'h' :: t :: ':' :: rest =>
+      match (if t = 'i' then some HTarget.img else if t = 'o' then some HTarget.orig else none),
+            parseHEdit? (String.ofList rest) with
+      | some t, some e => some (.hdr t e)
+      | _, _ => none
+  | _ => none
+
+def parseOps? (s : String) : Option (List Op) :=
+  if s = "-" then some [] else (s.splitOn ";").mapM parseOp?
+
+def showInts (l : List Int) : String := ",".intercalate (l.map toString)
+
+def showHdr (h : Hdr) : String :=
+  (match h.scale with
+   | some (s, i) => toString s ++ "," ++ toString i
+   | none => "_,_") ++ "," ++ toString h.n ++ "," ++ showDT h.dt
+
+def showB (b : Bool) : String := if b then "T" else "F"
+
+def showOut (o : Out) : String :=
+  (match o.res with
+   | .arr id a => toString id ++ ":" ++ showDT a.dt ++ ":" ++ showInts a.vals ++ ":" ++ (if a.ro then "r" else "w")
+   | .unit => "-"
+   | .valueError => "ERR:ValueError"
+   | .noArr => "noarr"
+   | .hdrs a b => "H(" ++ showHdr a ++ ")(" ++ showHdr b ++ ")"
+   | .notApplicable => "na") ++ ":" ++ showB o.inMem
+
+def parseScale? (a b : String) : Option (Option (Int × Int)) :=
+  if a = "_" ∧ b = "_" then some none
+  else match a.toInt?, b.toInt? with
+    | some x, some y => some (some (x, y))
+    | _, _ => none
 
 def handle : List String → String
+  | ["run", kind, dt, slope, inter, raw, ops] =>
+      match parseDT? dt, parseScale? slope inter, parseIntList? raw, parseOps? ops with
+      | some dt, some sc, some raw, some ops =>
+          let h : Hdr := ⟨sc, raw.length, dt⟩
+          let s0? : Option State :=
+            if kind = "A" then some (initArray ⟨dt, raw, false⟩ h)
+            else if kind = "P" then some (initProxy raw h)
+            else none
+          match s0? with
+          | some s0 =>
+              -- `dataobj[slice]` on an array image is outside the model: refuse loudly
+              if (trace s0 ops).any (fun o => o.res == .notApplicable) then "bad-op"
+              else "|".intercalate ((trace s0 ops).map showOut) ++ " F1"
+          | none => "bad-op"
+      | _, _, _, _ => "bad-op"
   | _ => "bad-op"
 
 end Nb.Drv.C13
